@@ -19,6 +19,10 @@ classmethod; Combination of 1..3 functions.  For every call shape:
 Histories: a class may be a value class (all instances ==, same hash); the member
 is then looked up on INST, on a distinct equal INST2, and on INST again, and every
 result is compared with the composition run on THAT instance (identity, not ==).
+The decorated callable may be an INSTANCE with __call__ (function placement; ordinary, value object
+with/without __hash__, dataclass): calls, wrappers() and the advertised signature are those of the same
+stack over a plain function with the same parameters (twin built in the program).  Unhashable instances:
+signature retrieval fails on the unchanged tree, reported under C13:unhashable-callable-signature.
 A stack may use the same wrapping function in adjacent layers (the same decorator
 object applied twice, or two decorators built from one raw function).
 """
@@ -51,6 +55,12 @@ INST2_VAL = 78
 KEY_SELF = 'C13:self-collision'
 KEY_COMB_INSPECT = 'C13:combination-inspect'
 KEY_SELF_KW = 'C13:self-keyword'
+# the decorated callable is an UNHASHABLE object (an instance with __call__ whose class defines
+# __eq__ without __hash__, e.g. a dataclass): signature retrieval of the decorated object raises
+# TypeError('unhashable type') or degrades to the generic fallback on the unchanged tree.  Calls
+# and wrappers.wrappers() are judged as for every other callable (C13:compose / C13:wrappers).
+KEY_UNHASH = 'C13:unhashable-callable-signature'
+DEFERRED = []
 SELF_KW_MSG = "__call__() got multiple values for argument 'self'"
 FALLBACKS = [0]
 
@@ -377,6 +387,49 @@ def func_src(name, tag, params, raises):
     return 'def %s(%s):\n%s' % (name, params_src(params), body)
 
 
+# The decorated callable as an object with __call__ instead of a function.  Its class may say
+# anything about equality and hashing: a decorated callable is never required to be hashable
+# or to compare by identity.
+FOBJ_KINDS = {
+    'plain': 'an ordinary instance (hashable by identity)',
+    'eq-nohash': 'a value object: __eq__ without __hash__ (unhashable)',
+    'dataclass': 'a dataclass instance (eq=True: unhashable)',
+    'eq-hash': 'a value object: all instances equal with equal hashes',
+}
+FOBJ_ORDER = ['plain', 'eq-nohash', 'dataclass', 'eq-hash']
+
+
+def fobj_src(name, tag, params, raises, kind):
+    call = func_src('__call__', tag, params, raises).replace('def __call__(', 'def __call__(_s, ', 1)
+    call = ''.join('    ' + l for l in call.splitlines(True))
+    head = 'class _FObj(object):\n'
+    extra = ''
+    if kind == 'eq-nohash':
+        extra = ('    def __init__(self, v=0):\n        self.v = v\n'
+                 '    def __eq__(self, other):\n        return isinstance(other, _FObj) and other.v == self.v\n')
+    elif kind == 'dataclass':
+        head = 'import dataclasses\n@dataclasses.dataclass\nclass _FObj(object):\n'
+        extra = '    v: int = 0\n'
+    elif kind == 'eq-hash':
+        extra = ('    def __eq__(self, other):\n        return isinstance(other, _FObj)\n'
+                 '    def __hash__(self):\n        return 7\n')
+    elif kind != 'plain':
+        raise KeyError(kind)
+    return '%s%s%s%s = _FObj()\n' % (head, extra, call, name)
+
+
+def fobj_spec(spec, kind):
+    """a generated stack spec turned into: function placement, the decorated callable is an
+    instance of the given kind"""
+    spec = dict(spec, placement='function', first=None, fobj=kind)
+    spec.pop('fform', None)
+    spec.pop('insts', None)
+    if spec.get('fsig') == 'annotate':
+        spec.pop('fsig')
+        spec.pop('fsig_name', None)
+    return spec
+
+
 FWD_OUTER = None
 
 
@@ -440,6 +493,11 @@ def stack_program(spec):
         src.append(fwd_src('f_raw', 'f_inner', spec['fform'] == 'declared'))
         plain = ('fwd', 120, spec['fform'] == 'declared', fwd_outer(), 1,
                  ('plain', 100, fparams, spec['fraise']))
+    elif spec.get('fobj'):
+        # the decorated callable is an INSTANCE with __call__ (same effective signature and
+        # behaviour as the function): see FOBJ_KINDS
+        src.append(fobj_src('f_raw', 'f', fparams, spec['fraise'], spec['fobj']))
+        plain = ('plain', 100, fparams, spec['fraise'])
     else:
         src.append(func_src('f_raw', 'f', fparams, spec['fraise']))
         plain = ('plain', 100, fparams, spec['fraise'])
@@ -479,6 +537,13 @@ def stack_program(spec):
         src.append('f = %s\n' % wrap('f_raw'))
         stored = deco(plain)
         access = [('f', 'f', 'f_raw', stored)]
+        if spec.get('fobj'):
+            # the same stack over a plain function with the same parameters: the reference for
+            # the advertised signature of the stack over the callable instance
+            src.append(func_src('f_twin', 'f', fparams, spec['fraise']))
+            if fsig == 'hand':
+                src.append('f_twin.__signature__ = inspect.signature(f_twin)\n')
+            src.append('TWIN0 = %s\n' % wrap('f_twin'))
     else:
         if pl == 'method':
             member, stored = wrap('f_raw'), deco(plain)
@@ -731,7 +796,18 @@ def examine(ns, j, label, mobj, calls, prog_kind, want=None, rng=None, nguided=0
     info['msig'], info['ssig'], info['isig'] = msig, ssig, isig
     names_in = input_names(mobj)
 
+    unhashable = False
+    if 'BASE%d' % j in ns:
+        try:
+            hash(ns['BASE%d' % j])
+        except TypeError:
+            unhashable = True
+    info['unhashable_base'] = unhashable
+
     def add(key, what, check, call=None):
+        if unhashable and check in ('sig-raises', 'isig-raises', 'b-sigtools', 'b-inspect', 'twin'):
+            key = KEY_UNHASH
+            what += ' [the decorated callable, an instance of %s, is unhashable]' % type(ns['BASE%d' % j]).__name__
         if want is None or want == check:
             fails.append((key, what, check, call))
 
@@ -740,6 +816,17 @@ def examine(ns, j, label, mobj, calls, prog_kind, want=None, rng=None, nguided=0
         if r[0] == 'raise':
             add(KEY_SELF if crash_self else 'C13:retrieval',
                 '%s(%s) raised %s' % (nm, label, r[1]), chk)
+    # the decorated callable is an instance with __call__: the stack advertises what the same
+    # stack over a plain function with the same parameters advertises
+    twin = ns.get('TWIN%d' % j)
+    if twin is not None:
+        for nm, fn, r in (('sigtools.signature', sigtools.signature, ssig), ('inspect.signature', inspect.signature, isig)):
+            t = get_sig(fn, twin)
+            if r[0] == 'ok' and (t[0] != 'ok' or str(t[1]) != str(r[1])):
+                add('C13:callable-instance-signature',
+                    '%s(%s) = %s but the same stack over a plain function with the same parameters advertises %s' % (
+                        nm, label, r[1], t[1] if t[0] == 'ok' else t), 'twin')
+                break
     # (d) wrappers(): outermost first, the very function objects
     try:
         ws = list(W.wrappers(obj))
@@ -1140,12 +1227,23 @@ def process_program(rep, kind, spec, src, stored, access, rng, cap, stats, coq_s
         stats['fallback_unsafe'] = stats.get('fallback_unsafe', 0) + info.get('fallback_unsafe', 0)
         stats['fell_back_objects'] = stats.get('fell_back_objects', 0) + (1 if info.get('fell_back') else 0)
         for key, what, check, call in fails:
-            rep.violation(key, what, {'kind': kind, 'src': src, 'access': j, 'label': label,
-                                      'check': check, 'call': call, 'spec': spec})
+            v = (key, what, {'kind': kind, 'src': src, 'access': j, 'label': label,
+                             'check': check, 'call': call, 'spec': spec, 'key': key})
+            if key == KEY_UNHASH:
+                # fails on the unchanged tree: reported after everything else
+                stats['unhashable_callable_signature_failures'] = stats.get('unhashable_callable_signature_failures', 0) + 1
+                if len(DEFERRED) < 3 and check not in [d[2]['check'] for d in DEFERRED]:
+                    DEFERRED.append(v)
+            else:
+                rep.violation(*v)
         # (e) model signature vs implementation
         msig = info['msig']
         for nm, r, mr in (('sigtools.signature', info['ssig'], msig),
                           ('inspect.signature', info['isig'], m_inspect_sig(mobj))):
+            if info.get('unhashable_base'):
+                # decided directly in examine (retrieval / twin / accepted calls) under KEY_UNHASH
+                stats['unhashable_base_objects'] = stats.get('unhashable_base_objects', 0) + 1
+                break
             if mr[0] == 'crash':
                 stats['crash_class'] += 1
                 if r[0] == 'ok' and nm == 'sigtools.signature':
@@ -1181,6 +1279,7 @@ def run(ctx, rep):
     if ARG != 17:
         rep.corr_break('name table', 'arg', 17, ARG)
     rng = ctx.rng('gen')
+    del DEFERRED[:]
     U_f, U_f3, U_owns, U_m = universes()
     nstack = 420 if ctx.quick else 4000
     ncomb = 160 if ctx.quick else 1500
@@ -1208,6 +1307,16 @@ def run(ctx, rep):
                         want_coq if i % 2 == 0 else None)
         if i < 3:
             rep.sample({'program': src, 'objects': [a[0] for a in access]})
+    # ---- the decorated callable is an instance with __call__ (function placement)
+    orng = ctx.rng('fobj')
+    by_fobj = {}
+    for i in range(72 if ctx.quick else 900):
+        kind = FOBJ_ORDER[i % len(FOBJ_ORDER)]
+        spec = fobj_spec(gen_stack_spec(orng, U_f3 if orng.random() < 0.25 else U_f, U_owns), kind)
+        by_fobj[kind] = by_fobj.get(kind, 0) + 1
+        src, stored, access = stack_program(spec)
+        process_program(rep, 'stack', spec, src, stored, access, orng, cap, stats, coq_sample, None)
+    rep.coverage['decorated_callable_instances'] = by_fobj
     for i in range(ncomb):
         spec = gen_comb_spec(rng, U_m, U_owns[0])
         src, stored, access = comb_program(spec)
@@ -1217,6 +1326,8 @@ def run(ctx, rep):
             rep.sample({'program': src, 'objects': [a[0] for a in access]})
     stats['coq_cases'] = len(coq_sample)
     stats['coq_disagreements'] = run_coq_sample(rep, coq_sample)
+    for v in DEFERRED:
+        rep.violation(*v)
     rep.evaluations = stats['calls']
     rep.coverage.update(stats)
     rep.coverage['programs'] = nstack + ncomb
@@ -1294,6 +1405,10 @@ def known_witnesses():
             'layers': [{'flavour': 'declared', 'own': [], 'n': 0, 'names': [], 'mode': 'ret'}]}
     out[KEY_SELF_KW] = {'kind': 'stack', 'spec': spec, 'src': stack_program(spec)[0], 'access': 0, 'label': 'f',
                         'check': 'a', 'call': [0, [AN, SELF]], 'key': KEY_SELF_KW}
+    spec = {'fparams': [a], 'first': None, 'fraise': False, 'placement': 'function', 'fobj': 'dataclass',
+            'layers': [{'flavour': 'declared', 'own': [mk_param(XN, 'PK')], 'n': 0, 'names': [], 'mode': 'ret'}]}
+    out[KEY_UNHASH] = {'kind': 'stack', 'spec': spec, 'src': stack_program(spec)[0], 'access': 0, 'label': 'f',
+                       'check': 'sig-raises', 'call': None, 'key': KEY_UNHASH}
     spec = {'members': [{'params': [a, mk_param(BN, 'PK')], 'raises': False}], 'nested': 0}
     out[KEY_COMB_INSPECT] = {'kind': 'comb', 'spec': spec, 'src': comb_program(spec)[0], 'access': 0, 'label': 'C',
                              'check': 'b-inspect', 'call': [1, []], 'key': KEY_COMB_INSPECT}
